@@ -1023,6 +1023,7 @@ class Chunk(Pipeline):
     def gen(rng, sc):
         n = rng.choice([0, 1, 2, 3, 4])
         utts = []
+        idx_names = rng.random() < 0.35
         for uid in gen_ids(rng, n):
             T = rng.randrange(1, 10)
             ali, cur = [], rng.randrange(4)
@@ -1039,10 +1040,12 @@ class Chunk(Pipeline):
                     continue
                 a = rng.randrange(0, T + 1)
                 b = a if k < 0.3 else rng.randrange(a, T + 1)
-                if (a, b) in segs:
-                    continue
+                if (a, b) in segs and not idx_names:
+                    continue  # with the default names, equal windows collapse into one file
                 segs.add((a, b))
                 ref.append([rng.randrange(6), a, b])
+                if idx_names and rng.random() < 0.3:
+                    ref.append([rng.randrange(6), a, b])  # e.g. a word and its tag on the same segment
             if rng.random() < 0.7 and (0, T) not in segs and ref:
                 # a final token spanning to the end: makes 'lens omitted' cover every segment
                 ref.append([rng.randrange(6), rng.randrange(0, T), T])
@@ -1051,7 +1054,7 @@ class Chunk(Pipeline):
             utts.append({"id": uid, "T": T, "ali": ali, "ref": ref})
         return {"utts": utts, "policy": rng.choice(["fixed", "ali", "ref"]), "window": rng.choice(["symmetric", "causal", "future"]), "lobe": rng.choice([0, 0, 1, 2, 3]),
                 "pad_mode": rng.choice([None, None, "constant", "replicate", "reflect"]), "pad_constant": rng.choice([0.0, -1.0, 2.0]), "partial": rng.random() < 0.3,
-                "retain": rng.random() < 0.25, "salt": rng.randrange(1000), "with_ali": rng.random() < 0.8, "with_ref": rng.random() < 0.8}
+                "retain": rng.random() < 0.25, "salt": rng.randrange(1000), "with_ali": rng.random() < 0.8, "with_ref": rng.random() < 0.8, "idx_names": idx_names}
 
     @staticmethod
     def feats(sc, k, T):
@@ -1079,6 +1082,8 @@ class Chunk(Pipeline):
             a.append("--partial-tokens")
         if sc["retain"]:
             a.append("--retain-token-boundaries")
+        if sc.get("idx_names"):
+            a += ["--format-utt", "{utt_id}.{idx:03d}.{start}.{end}"]
         o = run_command("chunk_torch_spect_data_dir", a)
         out = {"status": status_of([o]), "snap": {"out": snapshot(s.p("out"))}, "outcomes": [o], "validated": None}
         if o.exc is None and not o.rc and cfg.workers == 0 and os.path.isdir(s.p("out", "feat")):
@@ -1119,13 +1124,18 @@ class Chunk(Pipeline):
             return
         by_id = {u["id"]: (k, u) for k, u in enumerate(sc["utts"])}
         windows = {}
+        indices = {}
         flipped = False
         for fn in sorted(parts["feat"]):
             if not (fn.startswith(sc["prefix"]) and fn.endswith(sc["suffix"])):
                 res.violate("chunk.naming", f"chunk file {fn} lacks the prefix/suffix", pipeline=P)
                 return
             cid = fn[len(sc["prefix"]): len(fn) - len(sc["suffix"])]
-            uid, a, b = cid.rsplit(".", 2)
+            if sc.get("idx_names"):
+                uid, ix, a, b = cid.rsplit(".", 3)
+                indices.setdefault(uid, []).append(int(ix))
+            else:
+                uid, a, b = cid.rsplit(".", 2)
             st, en = int(a), int(b)
             if uid not in by_id:
                 res.violate("chunk.source", f"chunk {cid} names an unknown source utterance", pipeline=P)
@@ -1175,6 +1185,19 @@ class Chunk(Pipeline):
                         return
                     else:
                         res.violate("chunk.token-boundaries", f"chunk {cid}: token boundaries {got_r}, expected offsets from the slice start: {want}", pipeline=P, what="boundaries", sign_flipped=False)
+                        return
+        if sc.get("idx_names"):
+            for uid, ixs in indices.items():
+                if sorted(ixs) != list(range(len(ixs))):
+                    res.violate("chunk.indices", f"chunk indices of {uid} are {sorted(ixs)}, expected 0..{len(ixs) - 1}", pipeline=P)
+                    return
+            if sc["policy"] == "ali" and sc["pad_mode"]:
+                # without valid-only every segment yields exactly one slice, whatever the lobes
+                for uid, (k, u) in by_id.items():
+                    runs = sum(1 for t in range(u["T"]) if t == 0 or u["ali"][t] != u["ali"][t - 1])
+                    if len(windows.get(uid, [])) != runs:
+                        res.violate("chunk.windows", f"policy ali without valid-only on {uid}: {len(windows.get(uid, []))} chunks for {runs} segments (one slice per segment is documented)",
+                                    pipeline=P, what="ali-count")
                         return
         # which windows exist: judged only for lobe size 0, where the documented policy is unambiguous
         if sc["lobe"] == 0:
